@@ -8,6 +8,14 @@
    commit is applied to only part of its columns;
    [c10_no_half_commit_without_latch]: a half-applied commit exists only while its writer holds
    the write latch.
+   With data (ConcRead.v, over the real store model of ConcStore.v): ANY number of writers committing
+   transactions block after block and ANY number of readers, each holding the read latch of one
+   block while it reads cells of that block, in ANY interleaving:
+   [c10_reader_sees_one_state_of_the_store] - everything one reader was handed is the content of ONE
+   state of the collection, the fold of the first k block commits of the apply order: every
+   transaction's changes to the block are in it completely or not at all, and every value is one a
+   transaction committed (or the initial one); [c10_held_block_is_stable] - while the latch is held
+   that state is the block's current one; [c10_reader_excludes_writer].
    What the model cannot exhibit (partial, runtime): that Go's sync.RWMutex provides these
    semantics and that compiled code does not reorder accesses across Lock/Unlock (the Go memory
    model) - covered by the -race runs of C18; and that QueryAt / Range really take the latch for
@@ -15,6 +23,7 @@
    that gets past an acquisition the protocol forbids is a violation. *)
 From stdpp Require Import gmap list.
 From ColumnV Require Import Conc.
+From ColumnV Require Bytes Store ConcStore ConcRead.
 
 Theorem c10_reader_sees_one_committed_state : ∀ threads s t seen,
   wf_init threads → reach (init threads) s → pcs s !! t = Some (RDone seen) →
@@ -45,4 +54,48 @@ Proof.
       * apply (s_id _ 0%nat). cbn. by rewrite lookup_insert.
       * eapply (s_apply1 _ 0%nat). cbn. by rewrite lookup_insert.
     + done.
+Qed.
+
+Theorem c10_reader_sees_one_state_of_the_store : ∀ s0 txns readers s t r,
+  ConcRead.xreach (ConcRead.xinit s0 txns readers) s → ConcRead.rds s !! t = Some r →
+  ∃ k, (k <= length (ConcStore.trace (ConcRead.base s)))%nat ∧
+       ∀ c i v, (c, i, v) ∈ ConcRead.rseen r →
+                v = Store.read (foldl ConcStore.apply_entry s0 (take k (ConcStore.trace (ConcRead.base s)))) c i.
+Proof. exact ConcRead.reader_sees_one_committed_state. Qed.
+Print Assumptions c10_reader_sees_one_state_of_the_store.
+
+Theorem c10_held_block_is_stable : ∀ s0 txns readers s t r m c i,
+  ConcRead.xreach (ConcRead.xinit s0 txns readers) s → ConcRead.rds s !! t = Some r →
+  ConcRead.rstate r = ConcRead.RHold m → Store.blk i = ConcRead.rblk r →
+  Store.read (ConcStore.st (ConcRead.base s)) c i =
+  Store.read (foldl ConcStore.apply_entry s0 (take m (ConcStore.trace (ConcRead.base s)))) c i.
+Proof. exact ConcRead.held_block_is_stable. Qed.
+Print Assumptions c10_held_block_is_stable.
+
+Theorem c10_reader_excludes_writer : ∀ s0 txns readers s t r m u w,
+  ConcRead.xreach (ConcRead.xinit s0 txns readers) s → ConcRead.rds s !! t = Some r →
+  ConcRead.rstate r = ConcRead.RHold m → ConcStore.ths (ConcRead.base s) !! u = Some w →
+  ConcStore.whold w ≠ Some (ConcRead.rblk r).
+Proof. exact ConcRead.reader_excludes_writer. Qed.
+Print Assumptions c10_reader_excludes_writer.
+
+Theorem c10_writers_part_is_a_run_of_the_writer_lts : ∀ s0 txns readers s,
+  ConcRead.xreach (ConcRead.xinit s0 txns readers) s → ConcStore.reach (ConcStore.init s0 txns) (ConcRead.base s).
+Proof. exact ConcRead.xreach_base. Qed.
+Print Assumptions c10_writers_part_is_a_run_of_the_writer_lts.
+
+(* non-vacuity: a reader on block 0 takes the latch, reads a cell and releases; the value it was
+   handed is recorded *)
+Example c10_reader_example :
+  let s0 := Store.coll0 in
+  let readers : gmap nat N := {[ 5%nat := 0%N ]} in
+  ∃ s r, ConcRead.xreach (ConcRead.xinit s0 ∅ readers) s ∧ ConcRead.rds s !! 5%nat = Some r ∧
+         ConcRead.rstate r = ConcRead.RDone 0 ∧ ConcRead.rseen r = [(1%N, 3%N, None)].
+Proof.
+  cbn zeta. eexists _, _. split.
+  { eapply ConcRead.xr_step. eapply ConcRead.xr_step. eapply ConcRead.xr_step. apply ConcRead.xr_refl.
+    - eapply (ConcRead.x_rlock _ 5%nat); reflexivity.
+    - eapply (ConcRead.x_read _ 5%nat _ _ 1%N 3%N); [apply lookup_insert|reflexivity|reflexivity].
+    - eapply (ConcRead.x_runlock _ 5%nat); [apply lookup_insert|reflexivity]. }
+  cbn [ConcRead.rds]. rewrite lookup_insert. repeat split; reflexivity.
 Qed.
